@@ -44,6 +44,8 @@ class Register:
             raise JaqalError(
                 f"Illegal size specification in map statement defining {name}."
             )
+        if isinstance(size, (int, float)) and (size != int(size) or size < 1):
+            raise JaqalError(f"Invalid size {size} for register {name}.")
         self._alias_from = alias_from
         self._alias_slice = alias_slice
         if alias_slice is not None:
